@@ -213,6 +213,11 @@ def build_ml_driver():
     gen = os.path.join(BUILD, "ml")
     exe = os.path.join(BUILD, "kdv_driver")
     mods, names = extract_fragments()
+    base = [m.split(".")[-1] for m in mods]
+    dups = sorted({b for b in base if base.count(b) > 1})
+    if dups:
+        return False, ("extracted Coq modules must have unique basenames (one OCaml module each); "
+                       "clash: %s" % ", ".join(dups))
     only = os.environ.get("VERIF_ENGINES")
     engs = sorted(glob.glob(os.path.join(VERIF, "ml", "eng_*.ml")))
     if only:
